@@ -31,7 +31,7 @@ META = {
     "design_ref": "DESIGN.md §4.4 C16",
 }
 SPEC = "specs/Broadcast"
-ALL_ACTIONS = ["Send", "StartDeliverC", "TrySend", "Register", "Cancel", "ExitOnDone", "Dequeue", "CheckCtx", "FilterDup",
+ALL_ACTIONS = ["Send", "FailPublish", "StartDeliverC", "TrySend", "Register", "Cancel", "ExitOnDone", "Dequeue", "CheckCtx", "FilterDup",
                "Invoke", "Return"]
 
 
@@ -74,7 +74,7 @@ def run(ctx):
                 acts.append("RemoveHandler")
             ctx.require_coverage(r, acts, cfg)
         # without the second context check / the filter the invariants fail; the strict reading fails on the code as written
-        negs = ctx.pick(["MC_NoSecondCheck"], ["MC_NoSecondCheck", "MC_NoFilter", "MC_Window"])
+        negs = ctx.pick(["MC_NoSecondCheck", "MC_GiveBack"], ["MC_NoSecondCheck", "MC_GiveBack", "MC_NoFilter", "MC_Window"])
         for cfg in negs:
             r = ctx.tlc(SPEC, "Broadcast", cfg=cfg, label=cfg, expect=("violation",), dump_trace=False)
             out[cfg] = r.violated
@@ -89,7 +89,7 @@ def run(ctx):
         if not ctx.thorough:
             return None
         r = ctx.tlc(SPEC, "Broadcast", cfg="MC_Thorough_Local", coverage=True, label="MC_Thorough_Local", timeout=3000)
-        ctx.require_coverage(r, ALL_ACTIONS, "MC_Thorough_Local")
+        ctx.require_coverage(r, [a for a in ALL_ACTIONS if a != "FailPublish"], "MC_Thorough_Local")
         return r.distinct
 
     # The trace specs are explored depth-first and stop TLC (TLCSet("exit")) on the first path that consumes the whole
@@ -158,7 +158,13 @@ def run(ctx):
         return res
 
     def filter_alone():
-        go = ctx.gotest("pkg/net/retransmission", "^TestVerif_C16_Filter$", ["c16_test.go"], label="filter",
+        seq_cfg = ctx.pick("Gen_DupFilterSeq4", "Gen_DupFilterSeq5")
+        g = ctx.tlc(SPEC, "Gen_DupFilterSeq", cfg=seq_cfg, workers=1, label=seq_cfg, dump_trace=False, timeout=1500)
+        seqs = ctx.read_emitted(g, "sequences.ndjson")
+        if len(seqs) < 4000:
+            ctx.broken("only %d arrival orders generated" % len(seqs))
+        go = ctx.gotest("pkg/net/retransmission", "^TestVerif_C16_Filter(Order)?$", ["c16_test.go"], label="filter",
+                        inputs={"sequences.ndjson": seqs},
                         env={"VERIF_FILTER_ROUNDS": ctx.pick(4000, 30000), "VERIF_FILTER_TRACED": ctx.pick(60, 400)})
         res = {"go": go, "traces": []}
         if go.rc != 0 or not go.reports:
@@ -218,7 +224,8 @@ def run(ctx):
             name, total, ", ".join("%s=%d" % (k[10:], v) for k, v in sorted(c.items()) if k.startswith("behaviour_")),
             c.get("steps_compared", 0)))
         if not ctx.violations:
-            for a in ("Dequeue", "CheckCtx", "FilterInvoke", "Return", "ExitOnDone", "Send", "Retransmit", "Register"):
+            for a in ("Dequeue", "CheckCtx", "FilterInvoke", "Return", "ExitOnDone", "Send", "Retransmit", "Register") + \
+                    (("SendFail",) if name == "libp2p" else ()):
                 if c.get("step_" + a, 0) == 0:
                     ctx.broken("forced replay on %s never took step %s" % (name, a))
             if total and lost * 5 > total:
